@@ -224,12 +224,9 @@ func checkC11(c *Ctx) {
 			emitFacts(c, res, "R4.binary", "enc.layout", "dec.layout", "inv", "enc.size", "dec.short", "dec.long", "undecided")
 		}
 	}
-	c11FlowHook(c)
+	flowC11(c)
 }
 
-var c11FlowHook = func(c *Ctx) {
-	c.Run.Note("text/SQL representation rules (hex pairing, exact length before copy, checked assertion in Scan) are provided by the flow engine")
-}
 
 func tryCall(in *absint.Interp, cell *absint.Cell, T interface{ String() string }, name string, args ...absint.Value) (res []absint.Value, err error) {
 	err = in.Try(func() {
